@@ -161,7 +161,14 @@ func c08Transcripts() []c08Transcript {
 		t.expectID["a"] = ""
 		t.afterBadHello = true
 	}
-	for i, bad := range []any{nil, "not a schema", map[string]any{"steps": map[string]any{"x": map[string]any{"id": "x"}}}, map[string]any{"steps": 5}, []any{1}} {
+	scopeWith := func(root, key, id string) map[string]any {
+		return map[string]any{"root": root, "objects": map[string]any{key: map[string]any{"id": id, "properties": map[string]any{}}}}
+	}
+	stepWith := func(input any) map[string]any {
+		return map[string]any{"steps": map[string]any{"x": map[string]any{"id": "x", "input": input, "outputs": map[string]any{}}}}
+	}
+	for i, bad := range []any{nil, "not a schema", map[string]any{"steps": map[string]any{"x": map[string]any{"id": "x"}}}, map[string]any{"steps": 5}, []any{1},
+		stepWith(scopeWith("Missing", "A", "A")), stepWith(scopeWith("A", "A", "B")), stepWith(scopeWith("A", "B", "A")), stepWith(scopeWith("", "", ""))} {
 		out = append(out, c08Transcript{name: fmt.Sprintf("bad-schema-%d", i), version: 3, expectID: map[string]string{"a": ""}, expect: map[string]any{}, afterBadHello: true})
 		t := &out[len(out)-1]
 		t.msgs = append(t.msgs, hello(3, bad))
@@ -479,6 +486,22 @@ func runC08(c *wk.Ctx) {
 					f.garbage = garb[int(k)%len(garb)]
 				}
 				jobs = append(jobs, job{ti, f, "cut"})
+			}
+		}
+		// one flipped byte inside the hello message (the schema description travels there): ReadSchema may fail or
+		// succeed, but nothing may panic or hang
+		if t.name == "v3-one-run" || t.name == "v1-two-serial" {
+			step := int64(1)
+			if c.Quick() {
+				step = 5
+			}
+			for k := int64(0); k < helloEnd; k += step {
+				for mi, mask := range []byte{0x01, 0x02, 0x04, 0x20} {
+					if c.Quick() && (int(k/step)+mi)%2 != 0 {
+						continue
+					}
+					jobs = append(jobs, job{ti, c08Fault{kind: rig.FaultFlip, at: k, failWrites: -1, garbage: []byte{mask}}, "byte-flip-in-hello"})
+				}
 			}
 		}
 		// one flipped byte in the runtime part (the stream then continues to its end)
